@@ -6,6 +6,7 @@ import Req.Client.CompressAttempts
 import Req.Client.CompressFormats
 import Req.Client.CompressClose
 import Req.Client.CompressZstd
+import Req.Client.CompressLines
 import Req.Lemmas.C14Auto
 /-! Driver lanes of C14. -/
 namespace Req.Driver.L.C14
@@ -24,13 +25,15 @@ def pairs : List Bytes → Option Header
 
 def unpairs (h : Header) : List Bytes := h.flatMap fun p => [p.1, p.2]
 
-/-- `c14select <ce>` → the reader `NewCompressReader` builds, and the EqualFold-gzip test. -/
+/-- `c14select <ce>` → the reader `NewCompressReader` builds, the EqualFold-gzip test, and the list
+of content codings the value denotes (`Lines.codings`). -/
 def laneSelect : List String → String
   | [ce] =>
     match decodeHex ce with
     | some b =>
       (match select b with | some a => a.name | none => "none") ++
-        " fold=" ++ (if isGzipFold b then "1" else "0")
+        " fold=" ++ (if isGzipFold b then "1" else "0") ++
+        " codings=" ++ encodeList (Req.Compress.Lines.codings [b])
     | none => "bad-op"
   | _ => "bad-op"
 
